@@ -710,3 +710,9 @@ pub fn ts_entries(db: &SimDatabase) -> Vec<u64> {
     use salsa::plumbing::ZalsaDatabase;
     Ts::ingredient(db).entries(db.zalsa()).map(|e| e.key().key_index().as_bits()).collect()
 }
+
+/// number of q_lru memos that currently hold a value (heap_size is declared as 1 per value)
+pub fn lru_cached_count(db: &SimDatabase) -> usize {
+    let mu = <dyn salsa::Database>::memory_usage(db);
+    mu.queries.get("q_lru").and_then(|i| i.heap_size_of_fields()).unwrap_or(0)
+}
